@@ -293,6 +293,42 @@ def check_global_row_ids(ctx, fn_key, rule='A21g'):
                        else f'`{ids}` is not filtered with `{mask}`: rows and ids fall out of step')
     if not found:
         raise AnalysisError(f'{fn_key}: row ids (np.arange(<table>.shape[0])) not found')
+    # existence tables (one row per combination) are the other side of the comparison with the global ids: positions
+    # found in them (np.where) are combination indices only while the table is read with all its rows - a read
+    # through the row filter of the enumeration table yields positions in the filtered table
+    masks = set()
+    for d in cfg.nodes:
+        if d.kind == 'stmt' and isinstance(d.ast, ast.Assign) and isinstance(d.ast.value, ast.Subscript) and \
+                isinstance(d.ast.targets[0], ast.Name) and norm(d.ast.value.value) == d.ast.targets[0].id:
+            sl = d.ast.value.slice
+            row = sl.elts[0] if isinstance(sl, ast.Tuple) and sl.elts else sl
+            if not isinstance(row, ast.Slice):
+                masks.add(norm(row))
+    tables = {}
+    for d in cfg.nodes:
+        if d.kind == 'stmt' and isinstance(d.ast, ast.Assign) and isinstance(d.ast.targets[0], ast.Name) and \
+                isinstance(d.ast.value, ast.Call) and norm(d.ast.value.func).split('.')[-1] == 'get_nodes_existence':
+            tables[d.ast.targets[0].id] = d.lineno
+    for d in cfg.nodes:
+        if d.ast is None:
+            continue
+        roots = [d.ast.iter] if d.kind == 'for' else [d.ast.test] if d.kind in ('if', 'while') and \
+            hasattr(d.ast, 'test') else [d.ast] if d.kind == 'stmt' else []
+        for root in roots:
+            for x in ast.walk(root):
+                if isinstance(x, ast.Subscript) and isinstance(x.value, ast.Name) and x.value.id in tables and \
+                        isinstance(x.ctx, ast.Load):
+                    sl = x.slice
+                    row = sl.elts[0] if isinstance(sl, ast.Tuple) and sl.elts else sl
+                    bad = not isinstance(row, ast.Slice) and norm(row) in masks
+                    n += 1
+                    ctx.ob(rule, fkey(fn, rule, f'existence-table-read-with-all-rows:{x.value.id}'), not bad,
+                           f'{fn.module.relpath}:{getattr(x, "lineno", d.lineno)}',
+                           f'positions found in the existence table `{x.value.id}` are compared with the global '
+                           f'combination ids, so the table is read with all its rows (never through the row filter of '
+                           f'the enumeration table)',
+                           'all rows' if not bad else f'rows selected with `{norm(row)}`: positions in the filtered '
+                           f'table are not combination indices')
     return n
 
 
